@@ -134,6 +134,69 @@ def order_diff(a, b, path=""):
     return None
 
 
+def full_order_diff(a, b, path=""):
+    """every map lists its keys in the same order"""
+    if isinstance(a, dict) and isinstance(b, dict):
+        if list(a) != list(b):
+            return "%s: key order %s vs %s" % (path, list(a)[:8], list(b)[:8])
+        for k in a:
+            d = full_order_diff(a[k], b[k], path + "/" + k)
+            if d:
+                return d
+    elif isinstance(a, list) and isinstance(b, list):
+        for i, (x, y) in enumerate(zip(a, b)):
+            d = full_order_diff(x, y, "%s[%d]" % (path, i))
+            if d:
+                return d
+    return None
+
+
+def base_order_diff(a, b):
+    """merged documents: the top-level members and the members of components in the same order; what is carried
+    over from the base with every map in the same order; the generated parts (paths, components.schemas) as in the
+    tie without a base (dynamic maps only: the model does not claim the field order of openapiv3's structs)"""
+    if list(a) != list(b):
+        return "top-level member order %s vs %s" % (list(a), list(b))
+    ca, cb = a.get("components"), b.get("components")
+    if isinstance(ca, dict) and isinstance(cb, dict) and list(ca) != list(cb):
+        return "/components member order %s vs %s" % (list(ca), list(cb))
+    for k in a:
+        if k == "paths":
+            d = order_diff({"paths": a[k]}, {"paths": b[k]})
+        elif k == "components" and isinstance(ca, dict) and isinstance(cb, dict):
+            d = None
+            for k2 in ca:
+                d = order_diff({"schemas": ca[k2]}, {"schemas": cb[k2]}, "/components") if k2 == "schemas" else full_order_diff(ca[k2], cb[k2], "/components/" + k2)
+                if d:
+                    break
+        else:
+            d = full_order_diff(a[k], b[k], "/" + k)
+        if d:
+            return d
+    return None
+
+
+def sx_of_json(v):
+    """a JSON value in the model's s-expression encoding (EvalIO.djson); floats are not representable"""
+    if v is None:
+        return "(0)"
+    if isinstance(v, bool):
+        return "(1 %d)" % (1 if v else 0)
+    if isinstance(v, int):
+        if abs(v) >= 2 ** 60:
+            raise ValueError("integer out of the runner's range")
+        return "(2 %d)" % v
+    if isinstance(v, float):
+        raise ValueError("float")
+    if isinstance(v, str):
+        return "(4%s)" % "".join(" %d" % ord(c) for c in v)
+    if isinstance(v, list):
+        return "(5%s)" % "".join(" " + sx_of_json(x) for x in v)
+    if isinstance(v, dict):
+        return "(6%s)" % "".join(" ((%s) %s)" % (" ".join(str(ord(c)) for c in k), sx_of_json(x)) for k, x in v.items())
+    raise ValueError(type(v))
+
+
 def first_diff(a, b, path=""):
     if type(a) != type(b) and not (isinstance(a, (int, float)) and isinstance(b, (int, float)) and not isinstance(a, bool) and not isinstance(b, bool)):
         return "%s: %r vs %r" % (path, str(a)[:80], str(b)[:80])
@@ -159,7 +222,7 @@ def first_diff(a, b, path=""):
 def run(ctx, programs, label="eval_tie"):
     """programs: list of {"mods", "main"}. Reports a violation for every disagreement; returns the list of
     (program, impl result kind) for the programs on which both sides answered."""
-    lines = [json.dumps({"mods": p["mods"], "main": p["main"]}) for p in programs]
+    lines = [json.dumps(dict({"mods": p["mods"], "main": p["main"]}, **({"base": p["base"]} if isinstance(p.get("base"), str) else {}))) for p in programs]
     ok, out = core.ensure_runner()
     if not ok:
         ctx.broken.append("runner build failed: " + out[-300:])
@@ -214,6 +277,47 @@ def run(ctx, programs, label="eval_tie"):
             ctx.count(label + "_doc_disagree")
         else:
             ctx.count(label + "_doc_agree")
+    # the document tie with a base description: Model/BuilderBase.v on the model's Spec and the base as the code
+    # re-serialises it, vs oal-openapi's Builder::with_base on the real Spec; values and the order of every map
+    bl = []
+    for p, d in todo:
+        db = d.get("doc_base")
+        if not (d["result"].startswith("(0 ") and isinstance(db, dict)):
+            continue
+        if "builder_panic" in db:
+            ctx.violation("the document builder panics on the Spec of an accepted program and a base description",
+                          {"mods": p["mods"], "main": p["main"], "base": p.get("base")}, "a document", db["builder_panic"][:200], extra={"layer": "eval"})
+            continue
+        if "text" not in db:
+            ctx.count(label + "_base_rejected")
+            continue
+        try:
+            bj, mj = json.loads(db["base"]), json.loads(db["text"])
+            bsx = sx_of_json(bj)
+        except Exception:
+            ctx.count(label + "_base_unsupported")
+            continue
+        bl.append((p, d, mj, bsx))
+    bouts = core.run_stateless(core.RUNNER, "docbase", ["(%s %s %s %s)" % (d["prog"], d["strs_sx"], d["names_sx"], bsx) for _, d, _, bsx in bl])
+    for (p, d, cj, _), bo in zip(bl, bouts):
+        if bo is None or bo == "SKIPPED":
+            continue
+        inp = json.dumps({"mods": p["mods"], "main": p["main"], "base": p.get("base")})[:1500]
+        if not bo.startswith("(0 "):
+            ctx.broken.append("document tie (base): the model builds no document (%s) for %s" % (bo[:30], inp))
+            ctx.count(label + "_docbase_disagree")
+            continue
+        try:
+            mj = json_of_sx(parse_sx(bo)[1], d.get("floats") or [])
+        except Exception as ex:
+            ctx.broken.append("document tie (base): unreadable model output %r" % (ex,))
+            continue
+        diff = first_diff(mj, cj) or base_order_diff(mj, cj)
+        if diff:
+            ctx.broken.append("document tie (base): Model/BuilderBase.v and oal-openapi disagree at %s on %s" % (diff[:300], inp))
+            ctx.count(label + "_docbase_disagree")
+        else:
+            ctx.count(label + "_docbase_agree")
     for (p, d) in todo:
         if isinstance(d.get("doc"), dict) and "builder_panic" in d["doc"]:
             ctx.violation("the document builder panics on the Spec of an accepted program", {"mods": p["mods"], "main": p["main"]},
